@@ -174,6 +174,22 @@ CLAIMED["C16"] = {
     "design": "5 C16",
 }
 
+CLAIMED["C06"] = {
+    "text": "Trace validation of recorded calls: the driver registers every ordered pair (and singleton) of an 18-entry unary and a 12-entry "
+            "binary catalogue of C++ signatures (value, const&, &, *, const*, shared_ptr, shared_ptr<const>, arithmetic, bool, string, "
+            "Base/Derived, Boxed_Value, Boxed_Number) under one name, calls it with every argument kind (values, literals, const objects, "
+            "references, shared_ptr, a Base that really is a Derived, a const Base that is not) and records which overload was entered, how "
+            "often and what it received, plus boxed_cast<T> of every argument kind to 13 forms and wrong-arity calls; TLC checks every one of "
+            "the ~16,000 rows against the laws of Dispatch.tla (TypeSafe/ConstSafe, ExactWins, ExactlyOnce, NoMatchNoEntry, "
+            "ReceivedIsConverted, CastSound) and against a transcription of function_less_than/dispatch/dispatch_with_conversions/boxed_cast, "
+            "and checks (SpecSound) that the transcription itself satisfies the laws.",
+    "note": "A difference from the transcription that still satisfies the laws is reported as drift in the evidence, not as a violation. "
+            "Known finding: an exception of a swallowed type thrown from inside an entered function makes the loop enter a second overload. "
+            "std::function wrappers, vector/map conversions and user type_conversion<> are not in the catalogue yet.",
+    "technique": "trace validation by TLC of recorded overload resolutions and casts against a TLA+ specification (laws + transcription)",
+    "design": "5 C06",
+}
+
 PENDING_REASON = "check not built yet in this session; planned (see DESIGN.md section 8)"
 
 ALL = [f"C{i:02d}" for i in range(1, 21)]
